@@ -35,7 +35,7 @@ var defaultReal = []string{"package sarama from /repo's working tree (client, br
 var defaultStub = []string{"Kafka cluster = single-threaded model inside the simulation kernel (metadata, logs, idempotence state, coordinator, admin)", "TCP = in-memory net.Conn via Config.Net.Proxy.Dialer", "time = synctest fake clock"}
 
 func specFor(prop string) *propSpec {
-	s := &propSpec{id: prop, level: "exploration", quick: tierBudget{4000, 40 * time.Second, 6}, thorough: tierBudget{400000, 14 * time.Minute, 24}, real: defaultReal, stub: defaultStub}
+	s := &propSpec{id: prop, level: "exploration", quick: tierBudget{20000, 45 * time.Second, 6}, thorough: tierBudget{400000, 14 * time.Minute, 24}, real: defaultReal, stub: defaultStub}
 	s.rule = "cases are generated from VERIF_SEED (configuration x workload x fault rules x schedule mode); one case = one fresh worker process = one exactly replayable execution; distinct = distinct hash of the observable trace (wire frames + application-visible events with fake-time stamps); non-trivial = at least one fault fired or at least two application operations overlapped"
 	if f := specTweaks[prop]; f != nil {
 		f(s)
@@ -421,7 +421,7 @@ func cmdSelftest(n int) int {
 
 func knownProps() map[string]bool {
 	m := map[string]bool{}
-	for _, p := range []string{"C01", "C02", "C04", "C05", "C16", "C17", "C18"} {
+	for _, p := range []string{"C01", "C02", "C03", "C04", "C05", "C11", "C16", "C17", "C18"} {
 		m[p] = true
 	}
 	for p := range extraProps {
